@@ -10,7 +10,7 @@ ENGINES = [
     {"name": "K", "path": "/verif/engine_k", "kind_free_text": "Kani 0.68 / CBMC 6.11 bounded model checking of the real crate; harness modules overlaid into a scratch copy of /repo's working tree on every run",
      "serves_properties": ["C01", "C03", "C04", "C08", "C09", "C10", "C11", "C13", "C14", "C15", "C16", "C17", "C18", "C19", "C20"]},
     {"name": "M", "path": "/verif/mirsmt", "kind_free_text": "mirsmt: own MIR->SMT bounded model checker for thread interleavings, crash points and happens-before (nightly -Zunpretty=mir dump of the current tree -> per-thread guarded transition systems -> plan-based unrolling -> z3 bit-blast+SAT); counterexamples are replayed on the real code through the cfg(rarena_verif) atomics hook",
-     "serves_properties": ["C02", "C06", "C07", "C12"]},
+     "serves_properties": ["C02", "C06", "C07", "C09", "C12"]},
 ]
 NOTES = ("Exit codes of ./check: 0 held / 1 reproduced unlisted VIOLATION / 2 machinery could not decide (never disguised as 0). "
          "Known findings: /verif/known_findings.json. Design: /verif/DESIGN.md.")
@@ -28,7 +28,7 @@ add("C17", "K", "Kani/CBMC: rewind over the full u32/i64 position range against 
 add("C19", "K", "Kani/CBMC: recording checksummer shows the update slices tile allocated_memory()[reserved..]", "Real 4096-byte page size, CAP = 3 pages + 64, any cursor, reserved <= 64: chunks are contiguous, in order, cover exactly the range.", "DESIGN.md#c19", K_NOTE)
 add("C20", "K", KT + " with a discarded-delta oracle", "Delta of discarded() per operation from any INV state equals the oracle; discard_freelist returns the list sum and empties the list.", "DESIGN.md#c20", K_NOTE)
 
-add("C09", "K", "Kani/CBMC: sanity_check decided for all 2^64 identification-byte values; read-only arena mutators with a witness byte", "The identification check every open runs is decided exhaustively (memmap feature build); on an arena whose read-only flag is set every mutating call of the safe API is refused and no byte changes. Not covered: the order of effects inside the mmap-based open closures (FFI).", "DESIGN.md#c09", K_NOTE)
+add("C09", "K+M", "Kani/CBMC: sanity_check for all 2^64 identification-byte values, read-only mutators with a witness byte; mirsmt effects mode: symbolic pass over the MIR of map_mut_in / map_in with opaque callees, z3 path feasibility", "The identification check every open runs is decided exhaustively (memmap feature build); on an arena whose read-only flag is set every mutating call of the safe API is refused and no byte changes; on every path of the real open functions no byte of an existing file is written before the check has passed, a file smaller than the header is never accepted, and the read-only open never writes.", "DESIGN.md#c09", K_NOTE + " Effects mode: non-crate callees are arbitrary-valued opaque calls, unwinding paths not followed, sanity_check/write_sanity summarised.")
 add("C11", "K", "Kani/CBMC differential: the same symbolic INV state and call on one arena of each flavour", "Same results, observables and free-list contents for alloc_bytes / aligned / typed / dealloc / discard_freelist / rewind / knobs / clear from any INV state (CAP=96, <=2 nodes).", "DESIGN.md#c11", K_NOTE)
 add("C13", "K", "Kani/CBMC twin-arena differential: Drop vs. one explicit dealloc of the buffer extent; drop counters; refs()", "Dropping a handle (borrowed, owned, typed with a Drop value) leaves exactly the state one dealloc of its extent leaves, detached handles release nothing, values are dropped exactly once, refs() counts live arena values over clone/owned/drop orders; Kani's pointer checks catch use-after-free/double free. Multi-threaded clone/drop is not covered.", "DESIGN.md#c13", K_NOTE)
 add("C18", "K", "Kani/CBMC: truncate from history-built states with symbolic contents / follow-up request", "capacity == max(n, allocated), observables, free list and every byte below the cursor unchanged, follow-up allocation succeeds iff it fits or the list serves it; new size concrete per harness in the quick tier (symbolic in thorough), Vec backing only.", "DESIGN.md#c18", K_NOTE)
